@@ -399,8 +399,7 @@ def part_single(ctx, rng, st, special=None):
         if getattr(o0, "shape", None) != tuple(sh0):
             ctx.violation(tag + ":shape", f"empty input of shape {tuple(sh0)} -> {getattr(o0, 'shape', None)}", wit)
         ctx.count("empty_off_axis_extent")
-    if PENDING:
-        pending_single(ctx, rng, st, S, E, spec, A0, out, axis, wit, tag)
+    pending_single(ctx, rng, st, S, E, spec, A0, out, axis, wit, tag)   # fired on the unchanged tree; repaired (see KNOWN_FINDINGS.txt)
     if kind == "Void":
         ctx.ev()
         if not np.array_equal(out, A0):
@@ -437,12 +436,13 @@ def pending_single(ctx, rng, st, S, E, spec, A0, out, axis, wit, tag):
         return
     ndim, shape, scale = A0.ndim, A0.shape, float(np.abs(A0).max())
     W = dense_matrix(spec, E)
-    ctx.ev()
-    try:
-        ctx.close(tag + ":negative_axis", S(A0, axis=int(axis) - ndim), out, scale=scale, rtol=RTOL, what="axis counted from the end",
-                  witness=wit)
-    except ValueError as e:
-        ctx.violation(tag + ":negative_axis", f"axis={int(axis) - ndim} for a {ndim}-dimensional array raised ValueError: {e}", wit)
+    if PENDING:   # a negative axis raises ValueError (undocumented form, loud): side observation, only with VERIF_C17_PENDING=1
+        ctx.ev()
+        try:
+            ctx.close(tag + ":negative_axis", S(A0, axis=int(axis) - ndim), out, scale=scale, rtol=RTOL, what="axis counted from the end",
+                      witness=wit)
+        except ValueError as e:
+            ctx.violation(tag + ":negative_axis", f"axis={int(axis) - ndim} for a {ndim}-dimensional array raised ValueError: {e}", wit)
     k = int(rng.integers(-50, 51))
     Ci = np.full(shape, k)
     ctx.close(tag + ":integer_constant_not_preserved", S(Ci, axis=axis), Ci, rtol=RTOL, what=f"constant integer array {k}",
@@ -740,7 +740,7 @@ def part_result(ctx, rng, st):
                 ctx.count("npz_then_set_smoother")
                 if nonvoid:
                     ctx.count("npz_then_set_smoother_nonvoid")
-                if PENDING:
+                if True:   # second set_smoother after the smoothed data were read: fired on the unchanged tree, repaired in 7344f08d
                     ld.set_smoother(list(objs))
                     ctx.close("dataSmooth_after_second_set_smoother!=dense_convolution", ld.dataSmooth, ref, scale=scale, rtol=rtd,
                               what="from_npz -> dataSmooth -> set_smoother -> dataSmooth", witness=wit)
@@ -769,8 +769,8 @@ def part_result(ctx, rng, st):
         finally:
             shutil.rmtree(tmp, ignore_errors=True)
 
-    if PENDING and ne >= 1:
-        # the same object asked again with other smoothers (second set_smoother after the smoothed data were read)
+    if ne >= 1:
+        # (fired on the unchanged tree - stale dataSmooth - repaired in 7344f08d)  the same object asked again with other smoothers (second set_smoother after the smoothed data were read)
         r = make(data)
         r.dataSmooth
         new = [(None if N < 2 else gen_smoother(rng, sm, E)) for N, E in zip(NEs, Energies)]
@@ -783,7 +783,7 @@ def part_result(ctx, rng, st):
         ctx.close("dataSmooth_after_second_set_smoother!=dense_convolution", r.dataSmooth, ref2, scale=scale, rtol=rtd2,
                   what="dataSmooth -> set_smoother(other) -> dataSmooth", witness=wit)
         monitors.assert_no_stale_caches(ctx, r, "EnergyResult.set_smoother", wit)
-        ctx.count("pending_second_set_smoother")
+        ctx.count("second_set_smoother_after_read")
 
     # ---- values returned earlier stay valid; the first object was not changed by anything done since
     ctx.close("dataSmooth:value_returned_earlier_changed", sm_data, sm_first, scale=scale, rtol=0, atol=0,
